@@ -119,7 +119,7 @@ func (fg *FnGen) step(fr *Frame, b *ssa.BasicBlock, ins ssa.Instruction, st *Sta
 		ft := stt.Field(x.Field).Type()
 		fr.addrs[x] = &Addr{Kind: "field", Base: base, Var: name, Sort: elemSort(srt), GoTyp: ft}
 		// pointer value: for embedded structs the sub-object reference, else an opaque address
-		fr.vals[x] = App("fld:"+name, SInt, base)
+		fr.vals[x] = fg.subRef(name, base)
 		if !fg.noDefs {
 			fg.assumeIf(reach, Gt(fr.vals[x], IntLit(0)))
 		}
@@ -557,7 +557,7 @@ func (fg *FnGen) load(fr *Frame, p ssa.Value, st *State, reach *Term, pos token.
 	case "field":
 		if stt, ok := a.GoTyp.Underlying().(*types.Struct); ok {
 			// embedded struct value: load all its fields from the sub-object
-			return fg.loadStruct(st, App("fld:"+a.Var, SInt, a.Base), a.GoTyp, stt)
+			return fg.loadStruct(st, fg.subRef(a.Var, a.Base), a.GoTyp, stt)
 		}
 		return Select(fg.lookup(st, a.Var, ArraySort(SInt, a.Sort)), a.Base)
 	case "elem":
@@ -625,7 +625,7 @@ func (fg *FnGen) loadStruct(st *State, ref *Term, named types.Type, stt *types.S
 		name, hs := fg.fieldVar(named, stt, i)
 		ft := stt.Field(i).Type()
 		if inner, ok := ft.Underlying().(*types.Struct); ok {
-			args = append(args, fg.loadStruct(st, App("fld:"+name, SInt, ref), ft, inner))
+			args = append(args, fg.loadStruct(st, fg.subRef(name, ref), ft, inner))
 		} else {
 			args = append(args, Select(fg.lookup(st, name, hs), ref))
 		}
@@ -643,7 +643,7 @@ func (fg *FnGen) storeValue(st *State, ref *Term, ty types.Type, v *Term) {
 			ft := stt.Field(i).Type()
 			fv := Sel(fmt.Sprintf("%s.%s", srt, stt.Field(i).Name()), ti.sortOf(ft), i, v)
 			if _, ok := ft.Underlying().(*types.Struct); ok {
-				fg.storeValue(st, App("fld:"+name, SInt, ref), ft, fv)
+				fg.storeValue(st, fg.subRef(name, ref), ft, fv)
 			} else {
 				fg.set(st, name, hs, Store(fg.lookup(st, name, hs), ref, fv))
 			}
@@ -659,7 +659,7 @@ func (fg *FnGen) store(fr *Frame, p ssa.Value, v *Term, vt types.Type, st *State
 	switch a.Kind {
 	case "field":
 		if _, ok := a.GoTyp.Underlying().(*types.Struct); ok {
-			fg.storeValue(st, App("fld:"+a.Var, SInt, a.Base), a.GoTyp, v)
+			fg.storeValue(st, fg.subRef(a.Var, a.Base), a.GoTyp, v)
 			return st
 		}
 		hs := ArraySort(SInt, a.Sort)
